@@ -175,3 +175,58 @@ def kw_tie(ctx, res, model_run):
                 mf = {k: (None if v is None else ([] if v == "empty" else v["leaf"])) for k, v in m["fields"]}
                 if out != "accept" or mf != got:
                     res.disagreements.append(dict(relation="BindKw.processKw vs _process_signature (bound fields)", case=case, model=mf, impl=got))
+
+
+# signatures of REQUIRED elements and REQUIRED choices between single elements: the whole record, bound and rendered
+RECORD_SHAPES = [
+    [("elem", "amount"), ("choice", [["card"], ["iban"], ["voucher"]])],
+    [("choice", [["a"], ["b"]]), ("elem", "m"), ("choice", [["c"], ["d"]])],
+    [("elem", "x"), ("elem", "y")],
+    [("choice", [["p"], ["q"], ["r"]])],
+]
+
+
+def record_schema(items):
+    parts = []
+    for kind, x in items:
+        if kind == "elem":
+            parts.append('<xs:element name="%s" type="xs:string"/>' % x)
+        else:
+            parts.append("<xs:choice>%s</xs:choice>" % "".join('<xs:element name="%s" type="xs:string"/>' % b[0] for b in x))
+    return ('<xs:schema xmlns:xs="http://www.w3.org/2001/XMLSchema" targetNamespace="urn:kw" elementFormDefault="qualified">'
+            '<xs:element name="sig"><xs:complexType><xs:sequence>%s</xs:sequence></xs:complexType></xs:element></xs:schema>' % "".join(parts))
+
+
+def kwrecord_tie(ctx, res, model_run):
+    """BindKw.processKw + renderRecord (the definitions c01_kw_choice_roundtrip is stated with) against construct-then-render in
+    zeep: the children written, or the class of the error, for every spelling (absent / None / value) of every name"""
+    import zeep.xsd
+    import zeep.exceptions
+    pending = []
+    for items in RECORD_SHAPES:
+        zs = zeep.xsd.Schema(etree.fromstring(record_schema(items).encode()))
+        el = zs.get_element("{urn:kw}sig")
+        names = all_names(items, [])
+        for combo in itertools.product(("absent", "none", "val"), repeat=len(names)):
+            kw = [(n, None if c == "none" else "V-" + n) for n, c in zip(names, combo) if c != "absent"]
+            case = dict(kind="kwrecord", items=items, kw=[[k, v] for k, v in kw])
+            res.case(key=("kwrecord", repr(items), repr(kw)), nontrivial=True)
+            res.count("kwrecord")
+            try:
+                parent = etree.Element("p")
+                el.render(parent, el(**dict(kw)))
+                got = [[etree.QName(c).localname, c.text or ""] for c in parent[0]]
+            except TypeError:
+                got = "TypeError"
+            except zeep.exceptions.ValidationError:
+                got = "ValidationError"
+            except Exception as e:  # noqa
+                got = "Other:" + type(e).__name__
+            pending.append(({"op": "bind.kwrecord", "items": [dict(k="elem", name=x) if kind == "elem" else dict(k="choice", branches=x) for kind, x in items],
+                             "kw": [[k, kw_mval(v)] for k, v in kw]}, got, case))
+    if model_run and pending:
+        for (mop, got, case), mo in zip(pending, model_run([p[0] for p in pending])):
+            m = mo.get("ok") or {}
+            mv = m.get("error") or m.get("children")
+            if mv != got:
+                res.disagreements.append(dict(relation="BindKw.renderRecord vs construct-and-render in zeep", case=case, model=mv, impl=got))
